@@ -143,11 +143,20 @@ Distribute(nodes, u) ==
       wh0 == Sub(u, "when")
       wh == [i \in 1..Len(wh0) |-> [wh0[i] EXCEPT !.arg = <<wh0[i].arg[1], IF u.kw = "augment" THEN "parent" ELSE "any">>]]
       stt == Sub(u, "status")
+      \* The status of the uses / augment is what an introduced node that states none gets (the statement: it applies to
+      \* every node introduced).  A node copied from the grouping / written in the augment keeps what it states itself
+      \* (RFC 6020 7.12: the nodes are copied; status is not among the refinements): when its own status is at least as
+      \* obsolete as the one on the uses / augment both readings agree and the own status stands.  An own status that is
+      \* LESS obsolete than the one on the uses / augment contradicts "applies to every node": not judged.
+      \* description and reference of the uses / augment describe that statement, not the nodes: they go nowhere.
+      Own(n) == IF stt = <<>> THEN <<>>
+                ELSE IF ~Has(n, "status") THEN stt
+                ELSE IF StRank(StOf(n, "current")) >= StRank(stt[1].arg[1]) THEN <<>>
+                ELSE <<Unj("own status of an introduced node less obsolete than the status on the uses/augment")>>
   IN [i \in 1..Len(nodes) |->
        LET n == nodes[i] IN
        IF n.kw \notin NodeKw THEN n
-       ELSE [n EXCEPT !.subs = @ \o iff \o wh
-                               \o (IF stt # <<>> /\ Has(n, "status") THEN <<Unj("status on both the uses/augment and the introduced node")>> ELSE stt)]]
+       ELSE [n EXCEPT !.subs = @ \o iff \o wh \o Own(n)]]
 
 \* ------------------------------------------------------------ refine (RFC 6020 7.12.2)
 RefAllowed(kw, kind) ==
@@ -341,7 +350,10 @@ DeviateNode(t, dv) ==
                     ELSE IF same = {} THEN AddErr(x, Err("deviate-delete-missing"))
                     ELSE [x EXCEPT !.subs = SubSeq(@, 1, MinOf(same) - 1) \o SubSeq(@, MinOf(same) + 1, Len(@))]
                [] OTHER -> AddErr(x, Err("deviate-unknown"))
-  IN F[Len(dv.subs)]
+      \* the grammar of every deviate statement (RFC 6020 7.18.3.2 tables, section 12) takes each property but must and
+      \* unique at most once
+      twice == \E i, j \in 1..Len(dv.subs) : i < j /\ dv.subs[i].kw = dv.subs[j].kw /\ ~Multi(dv.subs[i].kw)
+  IN IF twice THEN AddErr(F[Len(dv.subs)], Err("deviate-property-twice")) ELSE F[Len(dv.subs)]
 \* a whole deviation on the nodes of the file that holds its target
 DeviationAt(nodes, dn, M) ==
   LET ip == Locate(nodes, dn.arg, M)
@@ -349,13 +361,22 @@ DeviationAt(nodes, dn, M) ==
       dvs == Sub(dn, "deviate")
       ns == {i \in 1..Len(dvs) : dvs[i].arg[1] = "not-supported"}
       F[i \in 0..Len(dvs)] == IF i = 0 THEN t ELSE DeviateNode(F[i-1], dvs[i])
+      \* The RFC fixes no order among the deviate statements of a deviation.  What is prescribed is what does not depend
+      \* on it: the edit in document order is judged when the edit in the reverse order is refused as well / gives the
+      \* same statements (as a bag); otherwise the module set is not judged.
+      G[i \in 0..Len(dvs)] == IF i = 0 THEN t ELSE DeviateNode(G[i-1], dvs[Len(dvs) + 1 - i])
+      fwd == F[Len(dvs)]
+      bwd == G[Len(dvs)]
+      bad(x) == Marks(x, "!error") # {}
+      orderDep == Len(dvs) > 1 /\ ns = {} /\ (bad(fwd) # bad(bwd) \/ (~bad(fwd) /\ (Range(fwd.subs) # Range(bwd.subs) \/ Len(fwd.subs) # Len(bwd.subs))))
   IN IF dvs = <<>> THEN nodes \o <<Err("deviation-without-deviate")>>
      ELSE IF ns # {} /\ Len(dvs) > 1 THEN nodes \o <<Err("deviate-not-supported-with-others")>>
      \* the node leaves the tree; the marker left in its place only remembers that a node of this name was there, for the
      \* statements of the parent that refer to it by name (key, unique, default case: see BuildNode)
      ELSE IF ns # {} THEN (IF dvs[1].subs # <<>> THEN nodes \o <<Err("deviate-not-supported-with-properties")>>
                            ELSE SetAt(nodes, ip, <<St("!gone", <<t.arg[1]>>, <<>>)>>))
-     ELSE SetAt(nodes, ip, <<F[Len(dvs)]>>)
+     ELSE IF orderDep THEN SetAt(nodes, ip, <<AddErr(fwd, Unj("the result depends on the order of the deviate statements"))>>)
+     ELSE SetAt(nodes, ip, <<fwd>>)
 \* strict: a deviation whose target is not found is an error; otherwise it is left in place
 ApplyDeviationsMode(M, strict) ==
   LET ds == TopStmts(M, "deviation")
@@ -398,6 +419,41 @@ FeatureUnjudged(FS, M) ==
   {"status of a reference between a module and its submodule" :
       f \in {x \in FS : \E dep \in x.deps : dep \in FeatIds(FS) /\ FeatRec(FS, dep).file # x.file /\ dep[1] = x.id[1]
                                             /\ StRank(x.status) < StRank(FeatRec(FS, dep).status)}}
+
+\* ------------------------------------------------------------ where the enabled features come from
+(* The set of enabled features is an input of the compilation with several ways in (compile/features.go, compile.Config).
+   A feature source is a record [op, b, xs, ys, ms] (xs, ys sequences of feature ids <<module, feature>>, ms sources):
+     "nil"     no checker at all
+     "names"   FeaturesFromNames(b, xs...): the named features are Enabled (b) / Disabled (~b), silent about the others
+     "table"   a FeaturesChecker of the caller: Enabled for xs, Disabled for ys, NotPresent for the others
+     "dirs"    FeaturesFromLocations(TRUE, loc1 [, loc2]): a file loc/<module>/<feature> exists for xs (loc1), ys (loc2)
+     "multi"   MultiFeatureCheckers(ms...): "Check each FeaturesChecker in order, the last to report Enabled or Disabled
+               wins.  Disabled is reported if not found."  nil members are skipped.
+     "config"  compile.Config{CapsLocation: a directory with files for xs, Features: ms[1]} = the capability directory
+               first, Config.Features on top of it
+   A feature is enabled iff the source reports Enabled for it.  The comment on the capability directory ("if the file
+   exists the feature is enabled, otherwise it is disabled") leaves open whether a directory WITHOUT the file is silent
+   or reports Disabled when it is combined with other checkers: both readings are evaluated (alt) and a source on which
+   they differ is not judged.                                                                                          *)
+SrcNil == [op |-> "nil", b |-> FALSE, xs |-> <<>>, ys |-> <<>>, ms |-> <<>>]
+SrcNames(b, xs) == [op |-> "names", b |-> b, xs |-> xs, ys |-> <<>>, ms |-> <<>>]
+SrcTable(on, off) == [op |-> "table", b |-> FALSE, xs |-> on, ys |-> off, ms |-> <<>>]
+SrcDirs(l1, l2) == [op |-> "dirs", b |-> TRUE, xs |-> l1, ys |-> l2, ms |-> <<>>]
+SrcMulti(ms) == [op |-> "multi", b |-> FALSE, xs |-> <<>>, ys |-> <<>>, ms |-> ms]
+SrcConfig(caps, feat) == [op |-> "config", b |-> FALSE, xs |-> caps, ys |-> <<>>, ms |-> <<feat>>]
+MaxOf(S) == CHOOSE x \in S : \A y \in S : x >= y
+RECURSIVE SrcStatus(_, _, _)
+SrcStatus(s, id, alt) ==
+  CASE s.op = "names" -> IF id \in Range(s.xs) THEN (IF s.b THEN "on" ELSE "off") ELSE "silent"
+    [] s.op = "table" -> IF id \in Range(s.xs) THEN "on" ELSE IF id \in Range(s.ys) THEN "off" ELSE "silent"
+    [] s.op = "dirs" -> IF id \in Range(s.xs) \cup Range(s.ys) THEN "on" ELSE IF alt THEN "off" ELSE "silent"
+    [] s.op = "multi" -> LET def == {i \in 1..Len(s.ms) : SrcStatus(s.ms[i], id, alt) # "silent"}
+                         IN IF def = {} THEN "off" ELSE SrcStatus(s.ms[MaxOf(def)], id, alt)
+    [] s.op = "config" -> SrcStatus(SrcMulti(<<SrcDirs(s.xs, <<>>), s.ms[1]>>), id, alt)
+    [] OTHER -> "silent"
+\* the features of universe U that source s enables / whether that is prescribed
+SrcEnabled(s, U) == {id \in U : SrcStatus(s, id, FALSE) = "on"}
+SrcOpen(s, U) == \E id \in U : (SrcStatus(s, id, FALSE) = "on") # (SrcStatus(s, id, TRUE) = "on")
 
 \* ------------------------------------------------------------ Build: statement tree -> schema tree
 Blank(kind, name) ==
@@ -630,6 +686,13 @@ Analyse(M, E) ==
       editOk |-> MarksAll(ed, "!error") = {} /\ MarksAll(ed, "!unjudged") = {} /\ (\A i \in 1..Len(ed) : ~TwoWhens(ed[i])) /\ "status-reference-in-grouping" \notin errs
                  /\ ~\E o \in opens : o.why = "not-supported",
       edit |-> WriteAll(ed)]
+\* the same with the enabled features coming from a feature source (only the features the module set declares matter)
+DeclIds(M) == UNION {{<<ModNameOf(M[i]), ft.arg[1]>> : ft \in Range(Sub(M[i], "feature"))} : i \in 1..Len(M)}
+AnalyseSrc(M, src) ==
+  LET U == DeclIds(M)
+      a == Analyse(M, SrcEnabled(src, U))
+  IN IF SrcOpen(src, U) THEN [a EXCEPT !.verdict = "unjudged", !.why = @ \cup {"a capability directory without a file for the feature combined with other checkers"}]
+     ELSE a
 Schema(M, E) == LET a == Analyse(M, E) IN [verdict |-> a.verdict, schema |-> IF a.verdict \in {"ok", "open"} THEN MaskTree(a.schema, <<>>, a.opens) ELSE Blank("tree", "")]
 Inline(M) == Analyse(M, {}).inline
 Edit(M) == Analyse(M, {}).edit
